@@ -55,7 +55,7 @@ def boundaries(text):
       # literal single spaces by the parser (known finding C15 word-operator spacing, probed separately)
       before = re.search(r'(\w+)$', text[:i])
       after = re.match(r'(\w+)', text[i + 1:])
-      words = {'in', 'as', 'is', 'not', 'else', 'if', 'then'}
+      words = {'in', 'as', 'is', 'not', 'else', 'if', 'then', 'combine'}
       if not ((before and before.group(1) in words) or (after and after.group(1) in words)):
         out.append(i + 1)
     i += 1
@@ -144,10 +144,19 @@ def _one(i):
   if tier == 'thorough':
     cases += [(b, n) for b in bs for n in NOISE[1:]]
   variants = [text[:b] + n + text[b:] for b, n in cases]
+  # an existing single blank between two tokens *replaced* by a newline / a tab (every such blank)
+  blanks = [b for b in bs if text[b - 1] == ' ' and (b < 2 or text[b - 2] not in ' \n') and b < len(text)
+            and text[b] not in ' \n']
+  if tier != 'thorough' and len(blanks) > 16:
+    # quick tier: the blanks in front of an `Op=` token always, a seeded sample of the others
+    keep = [b for b in blanks if re.match(r'[\w+]+=(?!=)', text[b:])]
+    blanks = sorted(set(keep + rnd.sample(blanks, 12)))
+  for b in blanks:
+    variants += [text[:b - 1] + '\n' + text[b:], text[:b - 1] + '\t' + text[b:]]
   # redundant parentheses, nested, with layout between the levels, around integer literals and rule bodies
   for wrap in ('(%s)', '((%s))', '( (%s) )', '(\n  (%s)\n)'):
     body_start = text.rfind(':- ')
-    nums = [m for m in re.finditer(r'(?<![\w."\'@])\d+(?![\w."\'])', text) if m.start() > body_start > 0
+    nums = [m for m in re.finditer(r'(?<![\w."\'@-])\d+(?![\w."\'])', text) if m.start() > body_start > 0
             and text.count('"', 0, m.start()) % 2 == 0]
     for m in nums[:3]:
       variants.append(text[:m.start()] + wrap % m.group(0) + text[m.end():])
@@ -221,13 +230,15 @@ KNOWN_PROBES = [
   ('word-operator-spacing/else-if', 'P(x, if y > x then "up" else if y == x then "eq" else "down") :- Q(x, y);',
    'P(x, if y > x then "up" else\n    if y == x then "eq" else "down") :- Q(x, y);'),
   ('word-operator-spacing/in', 'P(x) :- Q(x), x in [1, 2];', 'P(x) :- Q(x), x in\n  [1, 2];'),
+  ('word-operator-spacing/combine', 'P(x, c) :- A(x), c == (combine Min= y :- R(y, x));',
+   'P(x, c) :- A(x), c == (combine\n  Min= y :- R(y, x));'),
 ]
 
 
 def probes():
   parse, _, _ = R.mods()
   out = {'name': 'C15-word-operator-probes', 'evaluations': 0, 'distinct_nontrivial': 0, 'violations': [], 'samples': [],
-         'rule': 'a newline next to the word operators `else if` and `in` (the parser matches them with literal single spaces)'}
+         'rule': 'a newline next to the word operators `else if`, `in` and `combine` (the parser matches them with literal single spaces)'}
   for key, base, variant in KNOWN_PROBES:
     out['evaluations'] += 1
     out['distinct_nontrivial'] += 1
